@@ -1,6 +1,7 @@
 (* Props/C04.v -- property theorems only *)
-From Coq Require Import ZArith.
-From Falcon Require Import Base.Res IL.Const IL.ConstSpec IL.Expr IL.ExprSpec IL.ConstProofs IL.ExprProofs.
+From Coq Require Import ZArith List.
+Import ListNotations.
+From Falcon Require Import Base.Res IL.Const IL.ConstSpec IL.Expr IL.ExprSpec IL.ConstProofs IL.ExprProofs IL.ConstCost IL.ConstCostProofs.
 Local Open Scope Z_scope.
 
 (* 1. every binary operator, every width: the model of Constant is the bit-vector specification
@@ -186,3 +187,48 @@ Theorem c_bin_spec_c : forall o a b, 1 <= cbits a < 2 ^ 64 -> 1 <= cbits b ->
   inr (cbits a) (cval a) -> inr (cbits b) (cval b) -> c_bin o a b = sp_bin_c o a b.
 Proof. exact ExprProofs.c_bin_spec_c. Qed.
 Print Assumptions c_bin_spec_c.
+
+(* 8. "no unbounded allocation": ConstCost.v transcribes constant.rs a second time, logging every big integer
+      the Rust code materialises (c_bin_i / c_ext_i / eval_i : result * list of intermediates).
+      Consistency: the instrumented functions compute exactly the results of the model ... *)
+Theorem c_bin_i_fst : forall o a b, fst (c_bin_i o a b) = c_bin o a b.
+Proof. exact ConstCostProofs.c_bin_i_fst. Qed.
+Print Assumptions c_bin_i_fst.
+
+Theorem c_ext_i_fst : forall o bits a, fst (c_ext_i o bits a) = c_ext o bits a.
+Proof. exact ConstCostProofs.c_ext_i_fst. Qed.
+Print Assumptions c_ext_i_fst.
+
+(* ... and every intermediate is smaller than 2^(2w+2) (2^(w+bits+2) for extensions): bounded by the widths
+   alone, never by an operand value such as a shift amount of 2^64-1 *)
+Theorem alloc_bounded : forall w a b, 1 <= w -> inr w a -> inr w b ->
+  (forall o, Forall (fun v => Z.abs v < 2 ^ (2 * w + 2)) (c_bin_inter o (mkc w a) (mkc w b))) /\
+  (forall o bits, 0 <= bits -> Forall (fun v => Z.abs v < 2 ^ (w + bits + 2)) (c_ext_inter o bits (mkc w a))).
+Proof. exact ConstCostProofs.alloc_bounded. Qed.
+Print Assumptions alloc_bounded.
+
+(* evaluation of a built tree: rmaxw r is the largest width mentioned in the raw tree *)
+Theorem eval_alloc_bounded : forall r w e, rbounded r -> rsort r = SW w -> build r = Ok e ->
+  fst (eval_i e) = eval e /\ Forall (fun v => Z.abs v < 2 ^ (2 * rmaxw r + 2)) (eval_inter e).
+Proof. exact ConstCostProofs.eval_alloc_bounded. Qed.
+Print Assumptions eval_alloc_bounded.
+
+Theorem eval_i_fst : forall e, fst (eval_i e) = eval e.
+Proof. exact ConstCostProofs.eval_i_fst. Qed.
+Print Assumptions eval_i_fst.
+
+(* non-vacuity: 1:64 << (2^64-1):64 and 2^63:64 >>> (2^64-1):64 materialise a handful of integers below 2^65;
+   a shift by 63 really builds the 127-bit product *)
+Example ex_alloc :
+  c_bin_i Shl (mkc 64 1) (mkc 64 (2 ^ 64 - 1)) = (Ok (mkc 64 0), [0; 2 ^ 64; 2 ^ 64 - 1; 0]) /\
+  c_bin_inter AShr (mkc 64 (2 ^ 63)) (mkc 64 (2 ^ 64 - 1)) = [1; 2 ^ 64; 2 ^ 64 - 1; 2 ^ 64 - 1; 2 ^ 64; 2 ^ 64 - 1; 2 ^ 64 - 1] /\
+  c_bin_inter Shl (mkc 64 (2 ^ 64 - 1)) (mkc 64 63) = [(2 ^ 64 - 1) * 2 ^ 63; 2 ^ 64; 2 ^ 64 - 1; 2 ^ 63] /\
+  c_ext_inter Sext 12 (mkc 4 8) = [1; 2 ^ 12; 2 ^ 12 - 1; (2 ^ 12 - 1) * 2 ^ 4; (2 ^ 12 - 1) * 2 ^ 4 + 8; 2 ^ 12; 2 ^ 12 - 1; 4088].
+Proof. vm_compute; repeat split; try reflexivity; try discriminate. Qed.
+
+Example ex_alloc_tree :
+  let r := RSra (RConst (2 ^ 63) 64) (RConst (2 ^ 64 - 1) 64) in
+  rbounded r /\ rsort r = SW 64 /\ rmaxw r = 64 /\
+  (e <- build r ;; fst (eval_i e)) = Ok (mkc 64 (2 ^ 64 - 1)) /\
+  match build r with Ok e => forallb (fun v => Z.abs v <? 2 ^ 65) (eval_inter e) | _ => false end = true.
+Proof. vm_compute; repeat split; try reflexivity; try discriminate. Qed.
